@@ -863,3 +863,26 @@ def _mode_of(t):
             if k == C('mode'):
                 return v
     return None
+
+
+def rescaling_passes_parameters_on(ctx, rule='C19-R12'):
+    """CeiloChunk.data_rescaled hands the scaling parameters it was given to apply_scaling as they are: which parameters
+    are derived from the data, and from which data (the whole column, non-detections skipped by nanmax), is decided in one
+    place - scaler.convert_kwargs, which plots.tools.get_scaling_kwargs uses as well to undo the scaling. A parameter
+    derived here in another way (shift = latest *valid* hit) makes the scaled values disagree with the parameters every
+    other user derives, and the undo no longer restores the data."""
+    fx = effects(ctx)
+    p = ctx.project
+    q = 'ampycloud.data.CeiloChunk.data_rescaled'
+    f = p.func(q, rule)
+    ctx.saw(f)
+    calls = [e for e in fx.deep_events(q) if e.kind == 'call' and call_head(e) == f'{MOD}.apply_scaling']
+    ctx.floor(rule, 'apply_scaling calls in data_rescaled', len(calls), 1)
+    for e in calls:
+        extra = [v for k, v in e.call[3] if k is None or k not in ('fct',)]
+        derived = [v for v in extra if T.contains(v, lambda x: tag(x) in ('col', 'mask', 'rows') or
+                                                   (tag(x) == 'attr' and x[2] == '_data'))]
+        ctx.check(not derived, rule, q, e.node, e.loc(),
+                  f'apply_scaling is given parameters computed from the chunk data here ({T.show(derived[0], maxlen=140) if derived else ""}): '
+                  'data-derived scaling parameters come from scaler.convert_kwargs alone',
+                  instance='data_rescaled: scaling parameters passed on as given')
